@@ -183,8 +183,23 @@ impl Drop for DropGuard<'_> {
 impl Drop for Park {
     fn drop(&mut self) {
         // wait the kernel finish
-        while self.wait_kernel.load(Ordering::Acquire) {
-            yield_now();
+        // this must not be a cancellation point: the owner of the park may already
+        // hold what it waited for (a lock), a cancel panic from here would leak it
+        if self.wait_kernel.load(Ordering::Acquire) {
+            let cancel = if crate::coroutine_impl::is_coroutine() {
+                Some(crate::coroutine_impl::current_cancel_data())
+            } else {
+                None
+            };
+            if let Some(c) = cancel.as_ref() {
+                c.disable_cancel();
+            }
+            while self.wait_kernel.load(Ordering::Acquire) {
+                yield_now();
+            }
+            if let Some(c) = cancel.as_ref() {
+                c.enable_cancel();
+            }
         }
 
         self.set_timeout_handle(None);
